@@ -513,6 +513,26 @@ def rule_entry(ctx):
 CFGF = "program_structure/src/control_flow_graph/cfg.rs"
 
 
+def rule_edges_stay(ctx, R="C12.6"):
+    ctx.rule(R, "edges are only ever added: nothing in the control-flow-graph modules removes a member of a successor or predecessor set (a branch keeps both targets as successors even when its condition is a known constant)")
+    import facts as _facts
+
+    n = 0
+    for f in sorted(_facts.ast()):
+        if not f.startswith("program_structure/src/control_flow_graph/") and not f.startswith("program_structure/src/static_single_assignment/"):
+            continue
+        for q, fn in fns_in_file(f):
+            if not fn.get("body") or "tests" in q:
+                continue
+            n += 1
+            hits = [m for m in walk(fn["body"]) if m["k"] == "MethodCall" and m["method"] in ("remove", "retain", "clear", "drain", "take", "swap_remove", "pop", "split_off", "truncate") and re.search(r"self\.(successors|predecessors)\b|\.(successors|predecessors)_mut\(\)", render(m["recv"]).replace(" ", ""))]
+            hits += [m for m in walk(fn["body"]) if m["k"] == "MethodCall" and m["method"] in ("remove_successor", "remove_predecessor")]
+            if hits:
+                ctx.bad(R, "%s::%s/removes-an-edge" % (f.rsplit("/", 1)[-1][:-3], fn["name"]), "`%s`" % render(hits[0])[:70], site(f, hits[0]))
+    ctx.floor(R, "functions scanned for edge removal", n, 60)
+    ctx.ok(R, "scan-complete", "%d functions scanned" % n)
+
+
 def rule_handover(ctx):
     R = "C12.5"
     ctx.rule(R, "what the lifting built is what the graph holds: BasicBlock's mutators append / prepend / insert what they are given unconditionally, and the block vector goes from build_basic_blocks through Cfg::new into the graph without being changed (dropping a statement or a block afterwards leaves edges and branch targets pointing at things that are not there)")
@@ -571,3 +591,4 @@ def run(ctx):
     rule_entry(ctx)
     rule_complete(ctx)
     rule_handover(ctx)
+    rule_edges_stay(ctx)
